@@ -507,6 +507,25 @@ def malformed_txs(rng, n):
     return out
 
 
+def odd_url_txs():
+    """a fixed list of transactions whose URL net/url cannot parse (or that carry no scheme) but which still reach the
+    flows and quota system flows declared for h.test/* - HAProxy forwards such URLs unchanged"""
+    urls = [HOST + "/%zz", HOST + "/x%", HOST + "/x\x7f", HOST + "/x y", HOST + "/x\r\n", HOST + "/x%zz/y", TXURL + "?%zz=1", TXURL + "?a=%",
+            TXURL + "?a=1;b=2", TXURL, HOST + "/y", HOST + "/"]
+    out = []
+    for u in urls:
+        for d in ("req", "res"):
+            for ns in (False, True):
+                _txn[0] += 1
+                t = {"id": "u%d" % _txn[0], "dir": d, "method": "GET", "url": u, "headers": {}, "flow": "A", "bits": {}, "kind": "malformed"}
+                if ns:
+                    t["no_scheme"] = True
+                if d == "res":
+                    t["status"] = 200
+                out.append(t)
+    return out
+
+
 QUOTA_FILES = {
     "valid-two-paths": ("quotas:\n  - id: q1\n    filter:\n      url: h.test/x\n    strategy:\n      fixed_window:\n        max: 5\n        interval: 1\n        interval_unit: minute\n"
                         "  - id: q2\n    filter:\n      url: h.test/*\n    strategy:\n      concurrent:\n        max_request_count: 3\n", None),
@@ -774,6 +793,9 @@ def run_property(ctx, prop):
     if prop == "C05":
         for c in rcases[:: (6 if not T else 4)]:
             c["txs"] = c["txs"] + malformed_txs(ctx.rng, 6 if not T else 12)
+        for c in rcases:
+            if c["cfg"].get("quotas") and (c["id"].startswith("h") or T):
+                c["txs"] = c["txs"] + odd_url_txs()
         rcases += quota_cases(ctx.rng) + flow_file_cases(ctx.rng) + yaml_mutants(ctx.rng, 400 if not T else 4000)
     lines2, refs2, bad2 = exercise(ctx, prop, binary, rcases, "rand", reported)
     account(lines2, refs2, bad2)
